@@ -293,7 +293,7 @@ package syncer
 //@   set ctxDone = 1 after recv ctx.Done()
 //@   ghost var replayFailed mathint
 //@   requires nonnil: ro != nil && ro.outFilter != nil && filter.filterWF(ro.outFilter)
-//@   modifies heap, ended, ctxDone, replayFailed, reqs, lastCmd, lastNArgs, lastA1, lastA2, lastA3, lastA4, lastReply
+//@   modifies heap, ended, ctxDone, replayFailed, reqs, lastCmd, lastNArgs, lastA1, lastA2, lastA3, lastA4, lastReply, nDel, nPexpire
 //@   chan pipe: nonnil: recv != nil
 //@   set ended = ite(recvok && !recv.Done && recv.Err == nil, ended, 1) after recv pipe
 //@   ensures no_silent_stop: result == nil ==> ended == 1
@@ -309,7 +309,7 @@ package syncer
 //@   ghost var ctxDone mathint = 0
 //@   set ctxDone = 1 after recv ctx.Done()
 //@   requires nonnil: ro != nil
-//@   modifies heap, ended, ctxDone, replayFailed, reqs, lastCmd, lastNArgs, lastA1, lastA2, lastA3, lastA4, lastReply
+//@   modifies heap, ended, ctxDone, replayFailed, reqs, lastCmd, lastNArgs, lastA1, lastA2, lastA3, lastA4, lastReply, nDel, nPexpire
 //@   chan pipe: nonnil: recv != nil
 //@   set ended = ite(recvok && !recv.Done && recv.Err == nil, ended, 1) after recv pipe
 //@   ensures no_silent_stop: result == nil ==> ended == 1
@@ -323,7 +323,7 @@ package syncer
 //@   ghost var ctxDone mathint = 0
 //@   set ctxDone = 1 after recv ctx.Done()
 //@   requires nonnil: ro != nil
-//@   modifies heap, ended, ctxDone, replayFailed, reqs, lastCmd, lastNArgs, lastA1, lastA2, lastA3, lastA4, lastReply
+//@   modifies heap, ended, ctxDone, replayFailed, reqs, lastCmd, lastNArgs, lastA1, lastA2, lastA3, lastA4, lastReply, nDel, nPexpire
 //@   chan pipe: nonnil: recv != nil
 //@   set ended = ite(recvok && !recv.Done && recv.Err == nil, ended, 1) after recv pipe
 //@   ensures no_silent_stop: err == nil ==> ended == 1
@@ -339,7 +339,7 @@ package syncer
 //@   ghost var got mathint = 0
 //@   ghost var nonNil mathint = 0
 //@   requires nonnil: ro != nil
-//@   modifies heap, got, nonNil, ended, ctxDone, replayFailed, reqs, lastCmd, lastNArgs, lastA1, lastA2, lastA3, lastA4, lastReply
+//@   modifies heap, got, nonNil, ended, ctxDone, replayFailed, reqs, lastCmd, lastNArgs, lastA1, lastA2, lastA3, lastA4, lastReply, nDel, nPexpire
 //@   set got = got + 1 after recv errChan
 //@   set nonNil = nonNil + ite(recv != nil, 1, 0) after recv errChan
 //@   assert at call setCheckpoint: all_workers_succeeded: nonNil == 0 && got == cap(errChan)
@@ -361,3 +361,41 @@ package syncer
 //@   ensures no_silent_stop: result == nil ==> ended == 1
 //@   loop 1:
 //@     invariant progress: ended == 0
+
+// ---- key-exists policy on the bidirectional full-sync path (C20) ---------------------------
+//@ func bisyncRdbReplayState.beginKey
+//@   arith int
+//@   properties C20
+//@   requires nonnil: rs != nil
+//@   modifies rs.skippedKey
+//@   ensures cleared: rs.skippedKey == ""
+
+//@ func bisyncRdbReplayState.skipKey
+//@   arith int
+//@   properties C20
+//@   requires nonnil: rs != nil
+//@   modifies rs.skippedKey
+//@   ensures recorded: key != "" ==> rs.skippedKey == key
+
+//@ func bisyncRdbReplayState.shouldSkip
+//@   arith int
+//@   properties C20
+//@   requires nonnil: rs != nil
+//@   modifies nothing
+//@   ensures exact: result <==> (key != "" && rs.skippedKey == key)
+
+//   probedB  result of the EXISTS probe (-1 none, 0 absent, 1 present); policyB the policy in force at the probe
+//@ func RedisOutput.buildBisyncRdbReplayUnit
+//@   arith int
+//@   properties C20
+//@   ghost var probedB mathint = 0 - 1
+//@   ghost var policyB string
+//@   requires nonnil: ro != nil && conn != nil && state != nil
+//@   modifies heap, probedB, policyB, reqs, lastCmd, lastNArgs, lastA1, lastA2, lastA3, lastA4, lastReply, nDel, nPexpire
+//@   set probedB = ite(exists, 1, 0) after store exists
+//@   set policyB = ro.cfg.KeyExists after store exists
+//@   set probedB = ite(err#2 != nil, 0 - 1, probedB) after store err#2
+//@   assert at call shouldSkip: skip_decision_uses_target_key: key == targetKeyStr
+//@   assert at call skipKey: skip_record_uses_target_key: key == targetKeyStr
+//@   ensures ignore_builds_nothing: probedB == 1 && policyB == "ignore" ==> result0 == nil && result1 && result2 == nil
+//@   ensures error_stops: probedB == 1 && policyB == "error" ==> result2 != nil && result0 == nil
